@@ -862,3 +862,97 @@ Theorem C18_peer_down_only_after_up :
   forall (sent : list N) (evs : list ev), paired sent (forward sent evs).
 Proof. intros. apply forward_paired. auto. Qed.
 
+
+(* ================================================================ *)
+(* Witnesses against the behaviour before the fix commits (variant Legacy),
+   replayed on the unfixed code through the harness (corpus/C18/), and
+   non-vacuity examples. *)
+Definition K (p sh ix pid : N) : key := {| k_peer := p; k_sh := sh; k_ix := ix; k_pid := pid |}.
+Definition ex_cfg : cfg := {| c_pols := [[1; 2]; [3]]; c_lims := [] |}.
+
+(* C18-2: soft_reset_in loaded the subscriber list before the shard loop; the
+   subscriber registers and snapshots shard 0 in between *)
+Definition ex_progs_reset : list (list op) :=
+  [[Subscribe]; [Ins (K 1 0 0 0) 1; Ins (K 1 1 0 0) 2]; [SetPol 1; SoftReset 1]].
+Definition ex_sched_reset : list nat := [1; 2; 2; 1; 0; 0; 1; 2; 2; 0; 1]%nat.
+
+Lemma ex_wf_reset : wf_progs ex_progs_reset.
+Proof.
+  intros i j p o1 o2 Hij H1 H2 O1 O2.
+  destruct i as [|[|[|i]]], j as [|[|[|j]]]; cbn in H1, H2; try tauto;
+    repeat (destruct H1 as [H1|H1]; [subst o1|]); repeat (destruct H2 as [H2|H2]; [subst o2|]);
+    cbn in *; try tauto; try (destruct i; tauto); try (destruct j; tauto).
+Qed.
+
+Lemma ex_done_reset v : all_done (run_sched ex_cfg v (init ex_progs_reset) ex_sched_reset).
+Proof. intro i. destruct i as [|[|[|[|i]]]]; destruct v; reflexivity. Qed.
+
+Lemma C18_subscriber_fold_eq_rib_legacy_refuted :
+  exists (c : cfg) (progs : list (list op)) (sched : list nat) (k : key),
+    wf_progs progs /\
+    let s := run_sched c Legacy (init progs) sched in
+    all_done s /\ 2 <= g_walk (s_g s) /\
+    fold_post (g_evs (s_g s)) k <> rib_post (s_g s) k.
+Proof.
+  exists ex_cfg, ex_progs_reset, ex_sched_reset, (K 1 0 0 0).
+  split. apply ex_wf_reset. split. apply ex_done_reset. split.
+  - vm_compute. discriminate.
+  - vm_compute. discriminate.
+Qed.
+
+Example ex_reset_fixed :
+  let s := run_sched ex_cfg Fixed (init ex_progs_reset) ex_sched_reset in
+  g_walk (s_g s) = 2 /\ fold_post (g_evs (s_g s)) (K 1 0 0 0) = None /\ rib_post (s_g s) (K 1 0 0 0) = None /\
+  fold_pre (g_evs (s_g s)) (K 1 0 0 0) = Some 1 /\ rib_pre (s_g s) (K 1 0 0 0) = Some 1.
+Proof. vm_compute. auto. Qed.
+
+(* C18-1: an insert refused by the prefix limit had already been announced *)
+Definition ex_cfg_lim : cfg := {| c_pols := []; c_lims := [(1, 1)] |}.
+Definition ex_progs_lim : list (list op) := [[Subscribe]; [Ins (K 1 0 0 0) 1; Ins (K 1 1 0 0) 2]].
+Definition ex_sched_lim : list nat := [0; 0; 0; 1; 1; 1; 1]%nat.
+
+Lemma ex_wf_lim : wf_progs ex_progs_lim.
+Proof.
+  intros i j p o1 o2 Hij H1 H2 O1 O2.
+  destruct i as [|[|i]], j as [|[|j]]; cbn in H1, H2; try tauto;
+    repeat (destruct H1 as [H1|H1]; [subst o1|]); repeat (destruct H2 as [H2|H2]; [subst o2|]);
+    cbn in *; try tauto; try (destruct i; tauto); try (destruct j; tauto).
+Qed.
+
+Lemma C18_subscriber_fold_eq_rib_legacy_limit_refuted :
+  exists (c : cfg) (progs : list (list op)) (sched : list nat) (k : key),
+    wf_progs progs /\
+    let s := run_sched c Legacy (init progs) sched in
+    all_done s /\ 2 <= g_walk (s_g s) /\
+    fold_pre (g_evs (s_g s)) k <> rib_pre (s_g s) k.
+Proof.
+  exists ex_cfg_lim, ex_progs_lim, ex_sched_lim, (K 1 1 0 0).
+  split. apply ex_wf_lim. split.
+  - intro i. destruct i as [|[|[|i]]]; reflexivity.
+  - split; vm_compute; discriminate.
+Qed.
+
+Example ex_lim_fixed :
+  let s := run_sched ex_cfg_lim Fixed (init ex_progs_lim) ex_sched_lim in
+  fold_pre (g_evs (s_g s)) (K 1 1 0 0) = None /\ rib_pre (s_g s) (K 1 1 0 0) = None /\
+  last_touch false (K 1 1 0 0) (g_evs (s_g s)) = Some None.
+Proof. vm_compute. auto. Qed.
+
+(* a non-trivial run satisfying the hypotheses of the theorems: two sessions, a
+   session going down, live events after the snapshot *)
+Definition ex_progs_busy : list (list op) :=
+  [[Subscribe]; [Up 1; Ins (K 1 0 0 0) 1; Ins (K 1 1 1 0) 2; Rem (K 1 0 0 0); Down 1];
+   [Ins (K 2 1 0 1) 3; SetPol 2; SoftReset 2; Ins (K 2 0 0 0) 0]].
+Definition ex_sched_busy : list nat :=
+  [1; 2; 2; 1; 1; 0; 2; 1; 0; 1; 2; 2; 1; 0; 1; 2; 2; 2; 1; 1; 1; 1; 2]%nat.
+
+Example ex_busy :
+  let s := run_sched ex_cfg Fixed (init ex_progs_busy) ex_sched_busy in
+  g_walk (s_g s) = 2 /\ rib_pre (s_g s) (K 2 0 0 0) = Some 0 /\ rib_pre (s_g s) (K 1 1 1 0) = None /\
+  length (g_evs (s_g s)) = 15%nat /\
+  (* the PeerUp preceded the registration: the PeerDown is delivered but not forwarded *)
+  In (EvDown 1) (g_evs (s_g s)) /\ forward [] (g_evs (s_g s)) = [].
+Proof. vm_compute. intuition. Qed.
+
+Example ex_paired_nontrivial : paired [] [EvUp 1; EvDown 1; EvUp 2] /\ ~ paired [] [EvDown 1].
+Proof. split. cbn. auto. cbn. tauto. Qed.
